@@ -136,8 +136,15 @@ def step (st : State) (w : List String) : State × String :=
       -- one chase level: the queried name is node s, its alias target s-1; node 0 points back at node cyc-1
       let s := tail + cyc - 1
       let next : Nat → Option Nat := fun t => if t = 0 then some (cyc - 1) else some (t - 1)
-      let hops := (chaseLevel next 10 [s] (s - 1)).length - 1
-      (st, s!"rcode={if hops < 10 then 2 else 0} hops={hops}")
+      let vis := chaseLevel next 10 [s] (s - 1)
+      let hops := vis.length - 1
+      -- SERVFAIL when the level stopped at a target it had seen, or when the last exchange revealed the
+      -- queried name itself (`target == q.Name` is tested before the hop budget); otherwise the hop
+      -- budget ran out and the partial answer goes out
+      let backToStart := match vis.head? with
+        | some t => hops ≥ 1 && next t == some s
+        | none => false
+      (st, s!"rcode={if hops < 10 || backToStart then 2 else 0} hops={hops}")
     | _, _ => (st, "bad-op")
   | ["pipe", "late", _id, k, during, after] =>
     match parseKind k, during.toNat?, after.toNat? with
